@@ -10,6 +10,8 @@ thread_local! {
     static LAST_PANIC: RefCell<Option<String>> = const { RefCell::new(None) };
     /// single-threaded self-deadlock detection armed on this thread
     static ST_DETECT: RefCell<bool> = const { RefCell::new(false) };
+    /// panics on this thread are outcomes of code under test (scenario / stress threads): never print them
+    static EXPECT_PANICS: RefCell<bool> = const { RefCell::new(false) };
 }
 
 static INIT: Once = Once::new();
@@ -38,12 +40,17 @@ pub fn init() {
                 .unwrap_or_default();
             LAST_PANIC.with(|p| *p.borrow_mut() = Some(format!("{}{}", msg, loc)));
             // a panic outside guarded code is a defect of the harness itself: show it
-            let in_guarded = ST_DETECT.with(|d| *d.borrow());
+            let in_guarded = ST_DETECT.with(|d| *d.borrow()) || EXPECT_PANICS.with(|d| *d.borrow());
             if !QUIET.load(Ordering::Relaxed) || !in_guarded {
                 default(info);
             }
         }));
     });
+}
+
+/// mark the current thread as one that runs code under test whose panics are data
+pub fn expect_panics_on_this_thread() {
+    EXPECT_PANICS.with(|d| *d.borrow_mut() = true);
 }
 
 pub fn set_quiet(q: bool) {
